@@ -112,10 +112,12 @@ class Wire(Contract):
         return selfv, [], dict(args)
 
     def concrete_fields(self):
-        return {}
+        # Streaming.map_partitions = staticmethod(map_partitions): a class attribute, not a method definition
+        return {'map_partitions': VBuiltin('map_partitions')} if self.cls in ('BaseFrame', 'Frame', 'Series', 'DataFrame') else {}
 
     def globals(self):
-        return {'aggregations': VBuiltin('aggregations'), 'core': VBuiltin('core'), 'np': VBuiltin('np'), 'pd': VBuiltin('pd')}
+        return {'aggregations': VBuiltin('aggregations'), 'core': VBuiltin('core'), 'np': VBuiltin('np'), 'pd': VBuiltin('pd'),
+                'M': VBuiltin('M'), '_cumulative_accumulator': VBuiltin('_cumulative_accumulator')}
 
     def spec_funcs(self):
         def call_default(I, kind, name, recv, args, kwargs):
@@ -150,13 +152,22 @@ class Wire(Contract):
         def glob(I, name):
             return VBuiltin(name.s)
 
+        def map_partitions(I, args, kwargs, fr):
+            return herbrand(I, 'map_partitions', None, list(args), kwargs)
+
+        def attr_(I, v, name):
+            return VElem(sym.user_func('attr:' + name.s, 1)(_elem(I, v)))
+
+        def attr_default(I, v, name):
+            return VElem(sym.user_func('attr:' + name, 1)(_elem(I, v)))
+
         def type_default(I, v):
             # type(self): the concrete class of the receiver (a subclass such as Expanding must survive re-wrapping)
             if isinstance(v, VObj) and v.loc == self.pre_args['self'].loc:
                 return sym.VClass('type(self)')
             return None
         return {'call_default': call_default, 'binop_default': binop_default, 'call': call_, 'op': op_, 'glob': glob,
-                'type_default': type_default}
+                'type_default': type_default, 'attr': attr_, 'builtin_map_partitions': map_partitions}
 
     def unit(self, I, index):
         m = index.find_method(self.cls, self.method)       # the method the class resolves to (may be inherited)
@@ -264,3 +275,43 @@ ALL += [
 for _C in ALL[-2:]:
     assert _C.__name__ not in globals(), _C.__name__
     globals()[_C.__name__] = _C
+
+
+# ---- the remaining thin wrappers: every parameter the caller gives reaches the pandas method / the accumulator it is meant for
+# (C06: elementwise operations and reductions; C07 / C11: window and rolling parameters; C12: start / with_state)
+_MORE = [
+    W('BaseFrame', 'round', "call('map_partitions', glob('M.round'), self, decimals=decimals)", ['decimals']),
+    W('BaseFrame', 'reset_index', "call('map_partitions', glob('M.reset_index'), self)"),
+    W('BaseFrame', 'tail', "call('map_partitions', glob('M.tail'), self, n=n)", ['n']),
+    W('BaseFrame', 'astype', "call('map_partitions', glob('M.astype'), self, dt)", ['dt']),
+    W('BaseFrame', 'map', "call('map_partitions', glob('_subtype.map'), self, func, na_action=na_action)",
+      ['func', 'na_action'], concrete={'_subtype': VBuiltin('_subtype'), 'map_partitions': VBuiltin('map_partitions')}),
+    W('Frame', 'groupby', "call('GroupBy', self, other)", ['other']),
+    W('Frame', 'rolling', "call('Rolling', self, window, min_periods, with_state, start)", ['window', 'min_periods', 'with_state', 'start'],
+      props_=('C11', 'C12')),
+    W('Frame', 'window', "call('Window', self, n=n, value=value, with_state=with_state, start=start)", ['n', 'value', 'with_state', 'start'],
+      props_=('C07', 'C12')),
+    W('Frame', 'expanding', "call('Expanding', self, n=1, with_state=with_state, start=start)", ['with_state', 'start'],
+      props_=('C11', 'C12')),
+    W('Frame', 'ewm', "call('EWM', self, n=1, com=com, span=span, halflife=halflife, alpha=alpha, with_state=with_state, start=start)",
+      ['com', 'span', 'halflife', 'alpha', 'with_state', 'start'], props_=('C11', 'C12')),
+    W('Frame', '_cumulative_aggregation', "call('self.accumulate_partitions', self, glob('_cumulative_accumulator'), returns_state=True, "
+                                          "start=(), op=op)", ['op'], props_=('C11',)),
+    W('Frame', 'cumsum', "call('self._cumulative_aggregation', self, op='cumsum')", props_=('C11',)),
+    W('Frame', 'cumprod', "call('self._cumulative_aggregation', self, op='cumprod')", props_=('C11',)),
+    W('Frame', 'cummin', "call('self._cumulative_aggregation', self, op='cummin')", props_=('C11',)),
+    W('Frame', 'cummax', "call('self._cumulative_aggregation', self, op='cummax')", props_=('C11',)),
+    W('Series', 'value_counts', "call('self.accumulate_partitions', self, glob('aggregations.accumulator'), agg=%s, start=None, "
+                                "stream_type='updating', returns_state=True)" % agg('ValueCounts')),
+    W('Rolling', '__getitem__', "call('Rolling', call('.__getitem__', self.root, key), self.window, self.min_periods, self.with_state, self.start)",
+      ['key'], ['window', 'min_periods', 'with_state', 'start'], ['root'], props_=('C11', 'C12')),
+    W('Rolling', 'sum', "call('self._known_aggregation', self, 'sum')", props_=('C11',)),
+    W('Rolling', 'mean', "call('self._known_aggregation', self, 'mean')", props_=('C11',)),
+    W('Rolling', 'min', "call('self._known_aggregation', self, 'min')", props_=('C11',)),
+    W('Rolling', 'max', "call('self._known_aggregation', self, 'max')", props_=('C11',)),
+    W('Rolling', 'median', "call('self._known_aggregation', self, 'median')", props_=('C11',)),
+]
+for _C in _MORE:
+    assert _C.__name__ not in globals(), _C.__name__
+    globals()[_C.__name__] = _C
+ALL += _MORE
